@@ -25,6 +25,10 @@ PRE_B = make_event("B", 1, 101, [], "pre-stored by B")
 OVS = {"none": None, "whitelist": "nostr_relay.recipe.homeserver.whitelist_output_validator", "reject_b": "nrmc.checks.c14.reject_author_b"}
 
 
+# the recipe's validator depends on the *receiver's* token: K4 (token tok_rw) is whitelisted and sees everything
+WHITELIST = [PK["A"], PK["K4"]]
+
+
 def reject_author_b(event, context):
     return event.pubkey != PK["B"]
 
@@ -34,7 +38,7 @@ def ov_allows(ovname, event, token_pubkey):
         return True
     if ovname == "reject_b":
         return event["pubkey"] != PK["B"]
-    wl = [PK["A"]]
+    wl = WHITELIST
     return event["pubkey"] in wl or token_pubkey in wl or event["kind"] == 10002
 
 
@@ -94,7 +98,7 @@ def run_matrix(case):
     dump0 = pre_dump(backend)
     for ovname, ovpath in OVS.items():
         cfg = {"authentication": {"enabled": True, "actions": {"save": save, "query": query}, "relay_urls": [RELAY_URL]},
-               "output_validator": ovpath, "pubkey_whitelist": [PK["A"]]}
+               "output_validator": ovpath, "pubkey_whitelist": list(WHITELIST)}
         w = World(backend, config=cfg, storage_options={"stats_interval": 1e15}, message_timeout=1e300)
         label0 = "save=%s|query=%s|ov=%s" % (save or "-", query or "-", ovname)
         try:
